@@ -23,5 +23,7 @@ run decorator_test.go.part decorator restore '*'
 run decorator_test.go.part decorator helpers applyDecorations
 run dstutil_test.go.part dstutil cursor apply
 run decorator_test.go.part decorator graph objects
+run decorator_test.go.part decorator errors resolvers
+run decorator_test.go.part decorator save save
 for op in Append Prepend Replace Clear All; do run dst_test.go.part . declist $op; done
 exit $rc
